@@ -8,7 +8,7 @@ import shutil
 from . import core
 
 SHARD = 1200
-CHUNK = {"sm": 2500, "c17": 8, "c09": 100, "hand": 6}
+CHUNK = {"sm": 2500, "c17": 8, "c09": 100, "hand": 6, "conc": 40, "actor": 3}
 
 
 class HarnessCrash(RuntimeError):
